@@ -276,7 +276,7 @@ Definition parse_with (cv : conv) (l : str) : option val :=
   | CvInt => match py_int l with Some z => Some (VInt z) | None => None end
   | CvDecimal => match py_decimal l with Some d => Some (VDec d) | None => None end
   | CvBool => Some (VBool (py_bool l))
-  | CvOther => None
+  | _ => None    (* modelled in Binary / Temporal / Float models, or not at all *)
   end.
 
 Definition zle_opt_l (lo : option Z) (z : Z) : bool := match lo with Some a => (a <=? z)%Z | None => true end.
